@@ -33,10 +33,14 @@ def model_cfg(c):
             'local_id': int(netaddr.IPAddress(full['local_host'])), 'caps': full['caps']}
 
 
-def candidate_events(sim, pool, r=None, split=True):
+def candidate_events(sim, pool, r=None, split=True, booted=True):
     """the alphabet of C01 instantiated in the current simulated world"""
     w = sim.world
     evs = [{'k': 'start'}, {'k': 'stop'}]
+    if not booted:
+        # the agent's one deferred reactor.callLater(bgp_peer_call_later_time, automatic_start) has not run yet:
+        # the operator (REST) may start / stop the peer before it does
+        evs.append({'k': 'boot'})
     for c in w.connectors:
         if c.state == 'connecting':
             evs.append({'k': 'connok', 'c': c.id})
@@ -126,7 +130,7 @@ def run_walk(conf, events, driver, res):
 def bfs(conf, driver, res, depth, pool, budget):
     """every enabled event from every distinct canonical state, breadth first"""
     seen = {}
-    frontier = [[{'k': 'boot'}]]
+    frontier = [[{'k': 'boot'}], [{'k': 'start'}], [{'k': 'stop'}]]
     hit = {}
     n_events = 0
     for level in range(depth):
@@ -138,7 +142,7 @@ def bfs(conf, driver, res, depth, pool, budget):
                 p.step(ev)
             if not p.ok or p.skip:
                 continue
-            cands = candidate_events(p.sim, pool)
+            cands = candidate_events(p.sim, pool, booted=any(e['k'] == 'boot' for e in path))
             pre_state = p.last['state']
             for ev in cands:
                 q = Pair(conf, driver, res)
@@ -164,9 +168,10 @@ def bfs(conf, driver, res, depth, pool, budget):
 
 def random_walk(conf, driver, res, r, pool, length, bias):
     p = Pair(conf, driver, res)
-    p.step({'k': 'boot'})
+    late_boot = r.random() < 0.15
+    p.step({'k': r.choice(['start', 'stop', 'start'])} if late_boot else {'k': 'boot'})
     for _ in range(length):
-        cands = candidate_events(p.sim, pool)
+        cands = candidate_events(p.sim, pool, booted=any(e['k'] == 'boot' for e in p.trace))
         weights = []
         pending = any(c.state == 'connecting' for c in p.sim.world.connectors)
         for ev in cands:
